@@ -7,6 +7,8 @@ from fam_model import ModelFamily
 from fam_chan import ChanFamily
 from fam_script import ScriptFamily
 from fam_error import ErrorFamily
+from fam_data import DataFamily, IsolationFamily
+from fam_timeout import TimeoutFamily
 
 FLOW = FlowFamily()
 ACTIONS = ActionsFamily()
@@ -15,6 +17,9 @@ MODEL = ModelFamily()
 CHAN = ChanFamily()
 SCRIPT = ScriptFamily()
 ERROR = ErrorFamily()
+DATA = DataFamily()
+DATAISO = IsolationFamily()
+TIMEOUT = TimeoutFamily()
 
 QUIESCENT = ['cur-fifo', 'cur-chaos', 'cur-chaos-lifo', 'mt2-chaos', 'mt4-chaos', 'mt8']
 ALLSCHED = QUIESCENT + ['cur-inline', 'mt2-inline']
@@ -25,6 +30,19 @@ def part(name, family, quick, thorough, monitors=(), judge=False, props=None, **
 
 
 PROPS = {
+    'C19': {
+        'level': 'exploration',
+        'rule': 'distinct (rule set, placement on step or act, tick times relative to the limits, answer moment) cases on the virtual clock',
+        'parts': [part('timeout', TIMEOUT, 1500, 40000, judge=True, props=['C19'], chunk=100)],
+    },
+    'C07': {
+        'level': 'exploration',
+        'rule': 'distinct generated data-flow programs with at least one reader observation (each write stores a fresh tag), plus distinct multi-process isolation mixes',
+        'parts': [
+            part('data', DATA, 1500, 40000, judge=True, props=['C07'], chunk=100),
+            part('iso', DATAISO, 300, 8000, judge=True, props=['C07'], chunk=40),
+        ],
+    },
     'C06': {
         'level': 'exploration',
         'rule': 'distinct (model with generated catch placement, error code / error source) pairs',
